@@ -47,6 +47,7 @@ type pluginEvent struct {
 	Run      int       `json:"run"`
 	Obs      string    `json:"obs"` // fatal | error | ok
 	Err      string    `json:"err"`
+	ErrSha   string    `json:"errsha"` // hash of the full CodeGeneratorResponse.error text ("" unless obs = error)
 	Out      []outFile `json:"out"`
 	Hermetic []string  `json:"hermetic"`
 }
@@ -167,6 +168,8 @@ func cmdPlugin(args []string) {
 				ev.Obs, ev.Err = "fatal", trunc(err.Error()+": "+stderr, 300)
 			case resp.Error != nil:
 				ev.Obs, ev.Err = "error", trunc(resp.GetError(), 300)
+				es := sha256.Sum256([]byte(resp.GetError()))
+				ev.ErrSha = hex.EncodeToString(es[:8])
 			default:
 				ev.Obs = "ok"
 				for _, gf := range resp.File {
@@ -193,7 +196,7 @@ func cmdPlugin(args []string) {
 
 // checkedIn lists the proto files behind the checked-in *.pulsar.go files.
 var checkedIn = map[string][]string{
-	"testpb":                     {"1.proto", "2.proto", "3.proto"},
+	"testpb":                    {"1.proto", "2.proto", "3.proto"},
 	"internal/testprotos/test3": {"internal/testprotos/test3/test.proto", "internal/testprotos/test3/test_import.proto", "internal/testprotos/test3/test_nesting.proto"},
 }
 
